@@ -882,10 +882,18 @@ impl VirtualFileSystem for Memfs {
     /// assert_vfs_read_all!(vfs, &file, "foobar 1foobar 2");
     /// ```
     fn append_all<T: AsRef<Path>, U: AsRef<[u8]>>(&self, path: T, data: U) -> RvResult<()> {
-        let mut f = self.append(path)?;
-        f.write_all(data.as_ref())?;
-        f.flush()?;
-        Ok(())
+        // Create if needed and extend under a single write guard so that concurrent appends to
+        // the same file can never overwrite each other
+        let mut guard = self.write_guard();
+        let path = self._abs(&guard, path)?;
+        self._add(&mut guard, MemfsEntry::opts(&path).file().build())?;
+        match guard.get_file_mut(&path) {
+            Some(file) => {
+                file.data.extend_from_slice(data.as_ref());
+                Ok(())
+            },
+            None => Err(PathError::does_not_exist(path).into()),
+        }
     }
 
     /// Append the given line to to the target file including a newline
@@ -2160,9 +2168,18 @@ impl VirtualFileSystem for Memfs {
     /// assert_vfs_read_all!(vfs, &file, "foobar 1".to_string());
     /// ```
     fn write_all<T: AsRef<Path>, U: AsRef<[u8]>>(&self, path: T, data: U) -> RvResult<()> {
-        let mut f = self.write(path)?;
-        f.write_all(data.as_ref())?;
-        Ok(())
+        // Create if needed and replace the content under a single write guard so that no other
+        // thread can observe the file between its creation and its content being stored
+        let mut guard = self.write_guard();
+        let path = self._abs(&guard, path)?;
+        self._add(&mut guard, MemfsEntry::opts(&path).file().build())?;
+        match guard.get_file_mut(&path) {
+            Some(file) => {
+                file.data = data.as_ref().to_vec();
+                Ok(())
+            },
+            None => Err(PathError::does_not_exist(path).into()),
+        }
     }
 
     /// Write the given lines to to the target file including final newline
